@@ -101,7 +101,7 @@ static void build_canon(void) {
 			p.link_desc[0][0] = 0u | ((unsigned)CAN_LC[k] << 3); p.link_desc[0][1] = 1 | (1 << 1);
 		} else {
 			p.nchains = 2; p.nlinks[0] = 2; p.nlinks[1] = 1; p.chain_alg[0] = p.chain_alg[1] = RH_SHA256;
-			p.link_desc[0][0] = 0u | ((unsigned)CAN_LC[k] << 3); p.link_desc[0][1] = 1 | (1 << 1); p.link_desc[1][0] = 1;
+			p.link_desc[0][0] = 0u | ((unsigned)CAN_LC[k] << 3); p.link_desc[0][1] = 1 | (1 << 1); p.link_desc[1][0] = 1 | (2 << 1);   /* legacy id in the first chain, a metadata sibling in the second */
 		}
 		p.aggr_time = FX_T0; p.pub_time = FX_P0; p.tail = CAN_FORM[k]; p.doc_seed = 1 + (unsigned)k;
 		rs_build(&c->model, &p);
